@@ -132,10 +132,25 @@ FetchedIdx(W, n) == IF n = 0 THEN <<>>
 
 Expected(W) == FetchedIdx(W, Len(W.aln))
 
+(* the regions are listed in ascending genome order (chromosome, start) *)
+RegionsAscending(W) ==
+    \A k \in DOMAIN W.regions, m \in DOMAIN W.regions :
+        k < m => \/ W.regions[k].chrom < W.regions[m].chrom
+                 \/ (W.regions[k].chrom = W.regions[m].chrom /\ W.regions[k].s < W.regions[m].s)
+
+RestSeq(W, idx) == [ n \in DOMAIN idx |-> W.aln[idx[n]].rest ]
+OutRest(out) == [ n \in DOMAIN out |-> out[n].rest ]
+
+(* every fetched alignment exactly once (an alignment overlapping several regions too); in input
+   order when the regions are listed in ascending order - for another order of the region list
+   the statement does not fix the output order and only "exactly once" is judged *)
+ExactlyOnce(W, out) == SameBag(OutRest(out), RestSeq(W, Expected(W)))
 Conservation(W, out) ==
-    LET ex == Expected(W) IN
-    /\ Len(out) = Len(ex)
-    /\ \A n \in DOMAIN ex : out[n].rest = W.aln[ex[n]].rest
+    IF RegionsAscending(W) THEN OutRest(out) = RestSeq(W, Expected(W)) ELSE ExactlyOnce(W, out)
+
+(* input alignments are told apart by their opaque content (the harness gives every record a serial tag) *)
+RestUnique(W) == \A i \in DOMAIN W.aln, k \in DOMAIN W.aln : i # k => W.aln[i].rest # W.aln[k].rest
+IdxOf(W, r) == CHOOSE i \in DOMAIN W.aln : W.aln[i].rest = r
 
 -----------------------------------------------------------------------------
 (* the clauses about one written alignment o that stems from input alignment i *)
@@ -181,11 +196,10 @@ IsSwapOf(W1, W2, s, c, p) ==
     /\ [ W2 EXCEPT !.phase = W1.phase ] = W1
 
 Symmetry(W, out1, out2, s, c, p) ==
-    LET ex == Expected(W) IN
     /\ Len(out1) = Len(out2)
-    /\ Len(ex) = Len(out1) =>
+    /\ (Len(out1) = Len(out2) /\ ExactlyOnce(W, out1)) =>
          \A n \in DOMAIN out1 :
-            LET a == W.aln[ex[n]] IN
+            LET a == W.aln[IdxOf(W, out1[n].rest)] IN
             /\ out2[n].rest = out1[n].rest
             /\ out2[n].ps = out1[n].ps
             /\ IF out1[n].hp # Absent /\ out1[n].ps = p /\ a.chrom = c /\ SmpOf(W, a) = s
